@@ -7,7 +7,7 @@ Import ListNotations.
 
 Theorem login_end_to_end d tag fu fp u p b ens init :
   nsp tag = true -> tag <> [] ->
-  classify_login fu fp u p = None -> classify_cred d u p = None ->
+  classify_login fu fp u p = None -> in_domain d u p = true ->
   imap_spec d u p (accepted b)
     (run_creds d (login_creds false true (login_line tag fu fp u p)) b ens init).
 Proof.
@@ -17,7 +17,7 @@ Qed.
 
 Theorem authplain_end_to_end d z u p b ens init :
   count_byte z NUL = 0 -> count_byte u NUL = 0 -> count_byte p NUL = 0 -> u <> [] -> p <> [] ->
-  classify_cred d u p = None ->
+  in_domain d u p = true ->
   imap_spec d u p (accepted b)
     (run_creds d (authplain_creds false true (b64_encode (z ++ NUL :: u ++ NUL :: p) ++ crlf)) b ens init).
 Proof.
